@@ -92,13 +92,20 @@ def stream_serialize_vlq(f: BinaryIO, i: int) -> None:
 def stream_deserialize_vlq(f: BinaryIO) -> int:
     """ """
     result = 0
+    n_bytes = 0
 
     while True:
         (b,) = struct.unpack(b"B", safe_read(f, 1))
+        n_bytes += 1
 
         result += (b % 128)
 
         if b < 128:
+            # only the encoding that stream_serialize_vlq produces is accepted; otherwise a single value would have many
+            # encodings (e.g. any number of leading 0x80 bytes) and objects that cache their hash from the raw bytes
+            # would get a different id for the same content.
+            if n_bytes != (result.bit_length() // 7) + 1:
+                raise DeserializationError("Non-canonical VLQ encoding")
             return result
 
         result *= 128
